@@ -51,7 +51,18 @@ class CallMixin:
             if n == "super" and not e.args:
                 return [(st, VSuper(st.env.get("self", cx.self_val), cx.cls.qn))]
             if n == "cast" and len(e.args) == 2:
-                return self.ev(e.args[1], st, cx)
+                outs = []
+                for s2, v in self.ev(e.args[1], st, cx):
+                    try:
+                        tv = self.ev1(e.args[0], s2, cx.child(spec=True, acc=[]))
+                    except Unsupported:
+                        tv = None
+                    if isinstance(v, VRef) and isinstance(tv, VType) and tv.qn is not None and not v.exact:
+                        # typing.cast: the programmer's static type; used here only to select attribute sorts / dispatch
+                        if v.cls is None or self.repo.is_subclass(tv.qn, v.cls):
+                            v = VRef(v.t, tv.qn)
+                    outs.append((s2, v))
+                return outs
         # in-place mutation of a container held in an l-value
         if isinstance(e.func, ast.Attribute) and e.func.attr in MUTATORS:
             r = self.try_mutator(e, st, cx)
@@ -156,7 +167,10 @@ class CallMixin:
             k = z3.simplify(f.t)
             if z3.is_int_value(k) and 1 <= k.as_long() <= len(ops_CLOSURES()):
                 return self.call_function(ops_CLOSURES()[k.as_long() - 1], args, kw, st, cx, node)
-            raise Unsupported("call of a closure that is not known concretely (needs a client lemma)")
+            cc = self.reg.contracts.get("verif.closure." + str(getattr(f, "field", "?")))
+            if cc is not None:
+                return self.apply_contract(cc, args, kw, st, cx, node)
+            raise Unsupported("call of a closure that is not known concretely (needs a client lemma or a verif.closure.<field> contract)")
         if not isinstance(f, VFunc):
             if isinstance(f, VRef):
                 outs = []
@@ -178,7 +192,7 @@ class CallMixin:
             return [(st, self.call_unint(f.target, args, st))]
         qn = f.qn
         c = self.reg.contracts.get(qn)
-        if c is not None and not c.inline and qn not in self.reg.inline_ok:
+        if c is not None and not c.inline and qn not in self.reg.inline_ok and qn not in self.force_inline:
             return self.apply_contract(c, args, kw, st, cx, node)
         if f.kind == "contract":
             raise Unsupported("no contract for %s" % qn)
@@ -692,6 +706,7 @@ class CallMixin:
                 raise Unsupported("modifies of undeclared field %s" % m)
             k = self.heap_key(name, cls)
             a = z3.FreshConst(z3.ArraySort(z3.IntSort(), s.z3()), "H_" + k)
+            self.arr_bound[a.get_id()] = st.top
             st.heap[k] = a
 
 
